@@ -96,8 +96,9 @@ func suiteTiming(args []string) {
 		mc.peerClose()
 	}()
 
-	// (b) a peer that stalls before a request is disconnected; (c) inside a request too
-	for _, inside := range []bool{false, true} {
+	// (b) a peer that stalls before a request, inside its header or inside its body is disconnected, and
+	// what it sends afterwards is not served (C15: the deadline; C10: a silent peer only costs its own connection)
+	for _, off := range []int{0, 1, 3, 7, 8, 20, len(req) / 2, len(req) - 1} {
 		func() {
 			ts := newTimingServer(T, 0)
 			defer ts.stop()
@@ -105,16 +106,23 @@ func suiteTiming(args []string) {
 			ts.lis.ch <- acceptResult{conn: mc}
 			mc.peerSend(req)
 			mc.waitUntil(2*time.Second, func() bool { return len(splitMessages(mc.out)) >= 1 })
-			if inside {
-				mc.peerSend(req[:len(req)/2])
+			if off > 0 {
+				mc.peerSend(req[:off])
 			}
 			t0 := time.Now()
-			closed := mc.waitUntil(5*T, func() bool { return mc.localClosed })
+			closed := mc.waitUntil(4*T, func() bool { return mc.localClosed })
 			rep.Evaluations++
 			if !closed {
-				viol("deadline", map[string]interface{}{"scenario": "stall", "inside_request": inside, "what": "stalling peer not disconnected after 5x ReadTimeout"})
+				viol("deadline", map[string]interface{}{"scenario": "stall", "stall_at_offset": off, "what": "stalling peer not disconnected after 4x ReadTimeout"})
+				viol("stall-held", map[string]interface{}{"scenario": "partial message then silence", "bytes_sent": hexBytes(req[:off]), "what": "connection (and its goroutine) still held 4x ReadTimeout after the peer went silent"})
+				// does the server go on to serve whatever arrives next on this stale stream?
+				mc.peerSend(req[off:])
+				mc.peerSend(req)
+				if mc.waitUntil(T, func() bool { return len(splitMessages(mc.out)) >= 2 }) {
+					viol("stall-held", map[string]interface{}{"scenario": "partial message, silence past the read deadline, then more bytes", "stall_at_offset": off, "what": "the server answered on a connection that should have been closed at the read deadline"})
+				}
 			} else if el := time.Since(t0); el < T/2 {
-				viol("deadline", map[string]interface{}{"scenario": "stall", "inside_request": inside, "what": "disconnected long before the read deadline", "after_ms": el.Milliseconds()})
+				viol("deadline", map[string]interface{}{"scenario": "stall", "stall_at_offset": off, "what": "disconnected long before the read deadline", "after_ms": el.Milliseconds()})
 			}
 			mc.peerClose()
 		}()
